@@ -247,6 +247,8 @@ def main():
     # the part of the replay that concerns the failed obligation (all parts without a record)
     if "_is_evaluation_time" in name:
         parts = [lambda: e2e_default_times("mps" if "MPSBackendImpl" in name else "sv")]
+    elif "_get_target_times" in name and "/fp/" in name:
+        parts = [lambda: unit(rec)]
     elif "_get_target_times" in name:
         parts = [lambda: unit(rec), e2e_sv]
     elif "MPSBackendImpl" in name:
